@@ -1,271 +1,18 @@
-import ScrutModel.Lemmas.EscapingLossless
-import ScrutModel.Lemmas.EscapedGrammar
-import ScrutModel.Lemmas.EscapingPrintable
+import ScrutModel.Lemmas.EscapingGuard
 import ScrutModel.Model.Generate
 /-!
 # Escaped text as a sequence of pieces (for C09)
 
-Everything the generator writes in front of ` (escaped)` is a concatenation of *pieces*: a piece
-is a token of the two-pass decoder (`Tok`) that is either a single character or starts with a
-backslash, and the only piece containing a blank is the blank itself. That is what makes the two
-rewrites of `generate_expectation_line` sound: replacing a blank by `\x20` and replacing the first
-character by its `\xHH` form exchange one piece for another one that stands for the same bytes.
+Everything the generator writes in front of ` (escaped)` is a concatenation of *pieces*
+(`EscLemmas.Rep`, `Lemmas/EscapingPieces.lean`): a piece is a token of the two-pass decoder (`Tok`)
+that is either a single character or starts with a backslash, and the only piece containing a blank
+is the blank itself. That is what makes the rewrites of `generate_expectation_line` sound:
+replacing a blank by `\x20` and replacing the first character by its `\xHH` form exchange one piece
+for another one that stands for the same bytes. This file adds the one piece sequence that only
+the generator writes (`text.replace('\\', "\\\\")`).
 -/
 namespace Scrut.GenLemmas
 open Scrut.Utf8 Scrut.Esc Scrut.EscF Scrut.Rules Scrut.EscLemmas
-
-structure PieceOK (p : List Char) (b : List UInt8) : Prop where
-  tok : Tok p b
-  ne : p ≠ []
-  nl : '\n' ∉ p
-  space : ' ' ∈ p → p = [' ']
-  head : ∀ c r, p = c :: r → c ≠ '\\' → r = []
-
-abbrev Piece := List Char × List UInt8
-
-def Pcs (ps : List Piece) : Prop := ∀ x ∈ ps, PieceOK x.1 x.2
-def text (ps : List Piece) : List Char := ps.flatMap (·.1)
-def bytes (ps : List Piece) : List UInt8 := ps.flatMap (·.2)
-
-theorem Tok.unique {t : List Char} {b1 b2 : List UInt8} (h1 : Tok t b1) (h2 : Tok t b2) : b1 = b2 := by
-  have := h1.decode_eq.symm.trans h2.decode_eq
-  simpa using this
-
-theorem Pcs.tok {ps : List Piece} (h : Pcs ps) : Tok (text ps) (bytes ps) :=
-  Tok.flatMap _ _ ps (fun a ha => (h a ha).tok)
-
-theorem Pcs.tail {x : Piece} {ps : List Piece} (h : Pcs (x :: ps)) : Pcs ps :=
-  fun y hy => h y (List.mem_cons_of_mem _ hy)
-
-theorem Pcs.no_nl {ps : List Piece} (h : Pcs ps) : '\n' ∉ text ps := by
-  intro hm
-  simp only [text, List.mem_flatMap] at hm
-  obtain ⟨x, hx, hc⟩ := hm
-  exact (h x hx).nl hc
-
-theorem tok_x20 : Tok ['\\', 'x', '2', '0'] [32] := by
-  have := Tok.hex (h1 := '2') (h2 := '0') (a := 2) (b := 0) (by decide) (by decide)
-  simpa using this
-
-theorem tok_space : Tok [' '] [32] := by
-  have h : String.utf8EncodeChar ' ' = [32] := by decide
-  have := Tok.char (c := ' ') (by decide)
-  rwa [h] at this
-
-/-- a blank inside the text of a piece sequence can be written `\x20` -/
-theorem Pcs.replace_space {ps : List Piece} (h : Pcs ps) :
-    ∀ (body s0 : List Char), text ps = body ++ ' ' :: s0 →
-      Tok (body ++ '\\' :: 'x' :: '2' :: '0' :: s0) (bytes ps) := by
-  induction ps with
-  | nil => intro body s0 he; simp [text] at he
-  | cons x ps ih =>
-    intro body s0 he
-    have hx := h x (by simp)
-    have htl := Pcs.tail h
-    have he' : x.1 ++ text ps = body ++ ' ' :: s0 := by simpa [text] using he
-    have hb : bytes (x :: ps) = x.2 ++ bytes ps := by simp [bytes]
-    rw [hb]
-    rcases List.append_eq_append_iff.mp he' with ⟨a', h1, h2⟩ | ⟨c', h1, h2⟩
-    · -- the piece lies inside `body`
-      have := Tok.append hx.tok (ih htl a' s0 h2)
-      rw [h1]
-      simpa [List.append_assoc] using this
-    · cases c' with
-      | nil =>
-        have h1' : x.1 = body := by simpa using h1
-        have h2' : text ps = [] ++ ' ' :: s0 := by simpa using h2.symm
-        have := Tok.append hx.tok (ih htl [] s0 h2')
-        rw [← h1']
-        simpa using this
-      | cons d c'' =>
-        have hd : d = ' ' := by
-          have := congrArg List.head? h2
-          simpa using this.symm
-        subst hd
-        have hmem : ' ' ∈ x.1 := by rw [h1]; simp
-        have hp := hx.space hmem
-        have hbody : body = [] ∧ c'' = [] := by
-          rw [hp] at h1
-          cases body with
-          | nil => simpa using h1
-          | cons b0 bt =>
-            have := congrArg List.length h1
-            simp at this
-        obtain ⟨rfl, rfl⟩ := hbody
-        have hs0 : s0 = text ps := by simpa using h2
-        have hb32 : x.2 = [32] := by
-          have ht := hx.tok
-          rw [hp] at ht
-          exact Tok.unique ht tok_space
-        rw [hb32, hs0]
-        have := Tok.append tok_x20 htl.tok
-        simpa using this
-
-/-- text `w` is a piece sequence standing for the bytes `bs` -/
-def Rep (w : List Char) (bs : List UInt8) : Prop := ∃ ps, Pcs ps ∧ text ps = w ∧ bytes ps = bs
-
-theorem Rep.nil : Rep [] [] := ⟨[], fun x hx => (by cases hx), rfl, rfl⟩
-
-theorem Rep.single {p : List Char} {b : List UInt8} (h : PieceOK p b) : Rep p b :=
-  ⟨[(p, b)], fun x hx => (by simp at hx; subst hx; exact h), by simp [text], by simp [bytes]⟩
-
-theorem Rep.append {w1 w2 : List Char} {b1 b2 : List UInt8} (h1 : Rep w1 b1) (h2 : Rep w2 b2) :
-    Rep (w1 ++ w2) (b1 ++ b2) := by
-  obtain ⟨p1, hp1, rfl, rfl⟩ := h1
-  obtain ⟨p2, hp2, rfl, rfl⟩ := h2
-  refine ⟨p1 ++ p2, ?_, by simp [text], by simp [bytes]⟩
-  intro x hx
-  rcases List.mem_append.mp hx with h | h
-  · exact hp1 x h
-  · exact hp2 x h
-
-theorem Rep.flatMap {α : Type} (f : α → List Char) (g : α → List UInt8) (l : List α)
-    (h : ∀ a ∈ l, Rep (f a) (g a)) : Rep (l.flatMap f) (l.flatMap g) := by
-  induction l with
-  | nil => exact Rep.nil
-  | cons a l ih =>
-    simp only [List.flatMap_cons]
-    exact Rep.append (h a (by simp)) (ih (fun x hx => h x (by simp [hx])))
-
-theorem Rep.tok {w : List Char} {bs : List UInt8} (h : Rep w bs) : Tok w bs := by
-  obtain ⟨ps, hp, rfl, rfl⟩ := h
-  exact hp.tok
-
-theorem Rep.no_nl {w : List Char} {bs : List UInt8} (h : Rep w bs) : '\n' ∉ w := by
-  obtain ⟨ps, hp, rfl, rfl⟩ := h
-  exact hp.no_nl
-
-theorem Rep.replace_space {body s0 : List Char} {bs : List UInt8} (h : Rep (body ++ ' ' :: s0) bs) :
-    Tok (body ++ '\\' :: 'x' :: '2' :: '0' :: s0) bs := by
-  obtain ⟨ps, hp, ht, rfl⟩ := h
-  exact hp.replace_space body s0 ht
-
-/-- a text that starts with a character other than the backslash starts with the piece of that
-character -/
-theorem Rep.head {c : Char} {r : List Char} {bs : List UInt8} (h : Rep (c :: r) bs) (hc : c ≠ '\\') :
-    ∃ b bs', bs = b ++ bs' ∧ Tok [c] b ∧ Rep r bs' := by
-  obtain ⟨ps, hp, ht, rfl⟩ := h
-  cases ps with
-  | nil => simp [text] at ht
-  | cons x ps =>
-    have hx := hp x (by simp)
-    have ht' : x.1 ++ text ps = c :: r := by simpa [text] using ht
-    cases hx1 : x.1 with
-    | nil => exact absurd hx1 hx.ne
-    | cons c0 r0 =>
-      rw [hx1] at ht'
-      have hc0 : c0 = c := by
-        have := congrArg List.head? ht'
-        simpa using this
-      subst hc0
-      have hr0 := hx.head c0 r0 hx1 hc
-      subst hr0
-      have hr : text ps = r := by simpa using ht'
-      refine ⟨x.2, bytes ps, by simp [bytes], ?_, ps, Pcs.tail hp, hr, rfl⟩
-      have := hx.tok
-      rwa [hx1] at this
-
-/-! ### the pieces the escaper writes -/
-
-set_option maxRecDepth 16384 in
-theorem byteToAsciiN_piece : ∀ v, v < 256 → v ≠ 10 →
-    byteToAsciiN v ≠ [] ∧ '\n' ∉ byteToAsciiN v ∧ (' ' ∈ byteToAsciiN v → byteToAsciiN v = [' ']) ∧
-    ((byteToAsciiN v).head? = some '\\' ∨ (byteToAsciiN v).length = 1) := by decide
-
-theorem bytePiece (b : UInt8) (hb : b.toNat ≠ 10) : PieceOK (byteToAscii b) [b] := by
-  obtain ⟨h1, h2, h3, h4⟩ := byteToAsciiN_piece b.toNat b.toNat_lt hb
-  refine ⟨Tok.byte b hb, h1, h2, h3, ?_⟩
-  intro c r he hc
-  unfold byteToAscii at he
-  rw [he] at h4
-  rcases h4 with h | h
-  · exact absurd (by simpa using h) hc
-  · simpa using h
-
-theorem rep_encodeAscii (bs : List UInt8) (h : NoLF bs) : Rep (encodeAscii bs) bs := by
-  have := Rep.flatMap byteToAscii (fun b => [b]) bs (fun b hb => Rep.single (bytePiece b (h b hb)))
-  simpa [encodeAscii] using this
-
-theorem utf8EncodeChar_lf : String.utf8EncodeChar '\n' = [10] := by decide
-
-theorem charPiece {c : Char} (hb : c ≠ '\\') (hlf : NoLF (String.utf8EncodeChar c)) :
-    PieceOK [c] (String.utf8EncodeChar c) := by
-  refine ⟨Tok.char hb, by simp, ?_, ?_, ?_⟩
-  · intro hm
-    have : c = '\n' := (List.mem_singleton.mp hm).symm
-    subst this
-    exact hlf 10 (by rw [utf8EncodeChar_lf]; simp) (by decide)
-  · intro hm
-    have : c = ' ' := (List.mem_singleton.mp hm).symm
-    rw [this]
-  · intro c0 r he _
-    simpa using (List.cons.inj he).2.symm
-
-theorem backslashPiece : PieceOK ['\\', '\\'] [92] := by
-  refine ⟨?_, by simp, by decide, by decide, ?_⟩
-  · have := Tok.byte 92 (by decide)
-    simpa [byteToAscii, byteToAsciiN] using this
-  · intro c r he hc
-    have := (List.cons.inj he).1
-    exact absurd this.symm hc
-
-theorem rep_renderChar {isOther : Char → Bool} (hC : AsciiContract isOther) (c : Char)
-    (hlf : NoLF (String.utf8EncodeChar c)) :
-    Rep (renderChar isOther true c) (String.utf8EncodeChar c) := by
-  unfold Esc.renderChar
-  by_cases ho : isOther c = true
-  · simp only [ho, if_true, escapedPrintableAscii, hasUnprintable_of_other hC c ho]
-    exact rep_encodeAscii _ hlf
-  · simp only [ho]
-    by_cases hb : c = '\\'
-    · subst hb
-      simp only [and_self, if_true, utf8EncodeChar_backslash]
-      exact Rep.single backslashPiece
-    · simp only [hb, false_and, if_false]
-      exact Rep.single (charPiece hb hlf)
-
-/-- the escaped rendering, whenever it is chosen, is a piece sequence for the bytes of the line -/
-theorem written_rep (m : Mode) (isOther : Char → Bool) (hC : m = .unicode → AsciiContract isOther)
-    (bs : List UInt8) (hlf : NoLF bs) (hk : (written m isOther bs).1 = .escaped) :
-    Rep (written m isOther bs).2 bs := by
-  have hl' : lossyEq bs (escapedPrintable m isOther bs) = false := by
-    cases hl : lossyEq bs (escapedPrintable m isOther bs) with
-    | false => rfl
-    | true => simp [written, hl] at hk
-  rw [written_snd]
-  have hascii : lossyEq bs (escapedPrintableAscii bs) = false → Rep (escapedPrintableAscii bs) bs := by
-    intro h
-    unfold escapedPrintableAscii at h ⊢
-    by_cases hu : hasUnprintableAscii bs = true
-    · simp only [hu, if_true]
-      exact rep_encodeAscii bs hlf
-    · have hu' : hasUnprintableAscii bs = false := by simpa using hu
-      simp [hu', lossyEq_printable hu'] at h
-  cases m with
-  | ascii => exact hascii hl'
-  | unicode =>
-    have hC := hC rfl
-    simp only [escapedPrintable, escapedPrintableUnicode] at hl' ⊢
-    cases hd : utf8Decode bs with
-    | none =>
-      simp only [hd] at hl' ⊢
-      exact hascii hl'
-    | some cs =>
-      simp only [hd] at hl' ⊢
-      have hbs : utf8 cs = bs := utf8Decode_sound bs cs hd
-      have hne : cs.any isOther = true := by
-        cases ha : cs.any isOther with
-        | true => rfl
-        | false =>
-          rw [renderText_of_no_other cs ha] at hl'
-          simp [lossyEq, hd] at hl'
-      unfold renderText
-      rw [hne, ← hbs]
-      apply Rep.flatMap
-      intro c hc
-      apply rep_renderChar hC
-      intro b hb
-      exact hlf b (hbs ▸ mem_utf8 hc b hb)
 
 /-- `text.replace('\\', "\\\\")` is a piece sequence for the text -/
 theorem rep_doubleBackslash (t : List Char) (hlf : NoLF (utf8 t)) :
